@@ -13,8 +13,11 @@ R16.3 sibling wrappers (identical parameter lists) evaluate the same set of argu
 R16.4 every path with an effect returns 0 or the callee's own result.
 R16.5 each legacy wrapper forwards its parameters to the same internal callee in the same roles as
       its isal_ twin and returns the callee's result.
+R16.6 a legacy selector without a twin (aes_cbc_precomp) invokes exactly one internal interface per path, and
+      the one whose key size its size fact names.
 """
 import collections
+import re
 
 import build
 import ir
@@ -269,6 +272,35 @@ def run(chk):
             if L.local or L.name.startswith(("isal_", "_")):
                 continue
             calls = [I for I in L.calls() if not is_dbg(I) and (I.callee or "").startswith("_")]
+            if len(calls) > 1:
+                # R16.6: a legacy selector (e.g. aes_cbc_precomp): one internal interface per path, and the
+                # interface's key size must be the one the path's size fact names
+                unpaired.append(L.name)
+                try:
+                    lpaths = list(ir.paths_with_facts(L, max_paths=5000))
+                except ir.PathLimit:
+                    chk.broke("path limit in %s" % L.name)
+                    continue
+                bad6 = None
+                for P in lpaths:
+                    pc = [I for I in P.insts if I.op == "call" and not is_dbg(I) and (I.callee or "").startswith("_")]
+                    names = sorted({I.callee for I in pc})
+                    if len(names) > 1:
+                        bad6 = (pc[1], "one path invokes %s: the later call overwrites what the earlier one produced" % " and then ".join(I.callee for I in pc))
+                        break
+                    for I in pc:
+                        mm = re.search(r"_(128|192|256)(?:_|$)", I.callee)
+                        if not mm:
+                            continue
+                        for (val, pred, c, _t, br, pos) in P.facts:
+                            if pred == "eq" and isinstance(c, int) and c in (16, 24, 32) and scalar_only(L, val) and c * 8 != int(mm.group(1)):
+                                bad6 = (I, "under the fact %s == %d the %s-bit interface %s is invoked" % (ir.expr_str(L, val), c, mm.group(1), I.callee))
+                    if bad6:
+                        break
+                chk.obligation("R16.6", bad6 is None, key=L.name, sample={"legacy_selector": L.name, "paths": len(lpaths), "callees": sorted({I.callee for I in calls})})
+                if bad6:
+                    chk.finding(Finding("R16.6", src, L.name, "selector", bad6[1], loc=bad6[0].loc()))
+                continue
             if len(calls) != 1:
                 continue
             C = calls[0]
